@@ -50,4 +50,18 @@ Section PSet.
     else mkpstate (s_prims s') (s_terms s') (s_tc s' + 1) (s_pc s').
 
   Definition build (ops : list (bool * node)) : pstate := fold_left add_counted ops empty_state.
+
+  (* the tables are defaultdict(list): READING pset.primitives[t] / pset.terminals[t] at a type that is not
+     a key (generate(..., type_=t), mutInsert, ...) creates the key with an empty list; later _add calls append
+     to it, but addType no longer collects the subclass items for it *)
+  Definition touch (d : tbl) (t : ty) : tbl := if has_key d t then d else d ++ [(t, [])].
+
+  Inductive pop := PAdd (is_primitive : bool) (x : node) | PTouchP (t : ty) | PTouchT (t : ty).
+  Definition step_pop (s : pstate) (o : pop) : pstate :=
+    match o with
+    | PAdd b x => add_counted s (b, x)
+    | PTouchP t => mkpstate (touch (s_prims s) t) (s_terms s) (s_tc s) (s_pc s)
+    | PTouchT t => mkpstate (s_prims s) (touch (s_terms s) t) (s_tc s) (s_pc s)
+    end.
+  Definition run_pops (ops : list pop) : pstate := fold_left step_pop ops empty_state.
 End PSet.
